@@ -27,6 +27,8 @@ package memory
 //@ absdef tdeposit[k] = bigval(this.trials[k].Deposit)
 //@ absdef total       = sum(acreditsum, this.balances) + sum(tcreditsum, this.trials)
 //@ absdef nonce[k]    = this.nonces[k]
+//@ absdef tracked[k][j] = has(this.nodes[k].peers, j)
+//@ absdef peerts[k][j]  = this.nodes[k].peers[j]
 
 // snapshot (C10): the digit buffers of a returned balance are not buffers the store keeps (and later updates in place)
 //@ pure detached(s *memoryStore, b store.Balance) bool =
@@ -37,6 +39,10 @@ package memory
 
 // representation invariant: established by New, preserved by every method
 //@ pure wf(s *memoryStore) bool = s.balances != nil && s.nodes != nil && s.accounts != nil && s.trials != nil && s.nonces != nil
+//@      && (forall a store.NodeID :: has(s.nodes, a) ==> s.nodes[a].peers != nil && s.nodes[a].ID == a)
+//@      && (forall w store.Account :: has(s.balances, w) ==> s.balances[w].Account == w)
+//@      && (forall n store.NodeID :: has(s.trials, n) ==> s.trials[n].Account == "")
+//@      && (forall a store.NodeID, b store.NodeID :: has(s.nodes, a) && has(s.nodes, b) && a != b ==> s.nodes[a].peers != s.nodes[b].peers)
 
 //@ func New
 //@ property C12
@@ -104,3 +110,61 @@ package memory
 //@ implements store.PoolStore.SetNode
 //@ requires wf(s) && !held(s.mu)
 //@ ensures [wf] wf(s) && !held(s.mu)
+
+//@ func (*memoryStore).UpdateNodePeers
+//@ property C11 C10 C12
+//@ implements store.PoolStore.UpdateNodePeers
+//@ requires wf(s) && !held(s.mu)
+//@ ensures [wf] wf(s) && !held(s.mu)
+//@ ensures [registered-ok] {C12} old(has(s.nodes, nodeID)) ==> err == nil
+// loop 0: the reported peers refresh the tracked set of this node (P = the node's own peer map, shared with s.nodes[nodeID])
+//@ loop 0 invariant [lock]   held(s.mu) && wf(s) && node.peers == old(s.nodes[nodeID].peers) && now == clock() && inactive == nil
+//@ loop 0 invariant [own]    forall k store.NodeID :: (has(node.peers, k) <==> old(has(s.nodes[nodeID].peers, k)) || (old(store.listedUpTo(peers, rangeidx, k)) && has(s.nodes, k)))
+//@ loop 0 invariant [ownts]  forall k store.NodeID :: has(node.peers, k) ==> node.peers[k] == ite(old(store.listedUpTo(peers, rangeidx, k)) && has(s.nodes, k), s.nodes[k].LastSeen, old(s.nodes[nodeID].peers[k]))
+//@ loop 0 invariant [others] forall n store.NodeID, k store.NodeID :: n != nodeID && has(s.nodes, n) ==> has(s.nodes[n].peers, k) == old(has(s.nodes[n].peers, k)) && s.nodes[n].peers[k] == old(s.nodes[n].peers[k])
+// loop 1: entries whose recorded check-in is older than the deadline are dropped and reported
+//@ loop 1 invariant [lock]   held(s.mu) && wf(s) && node.peers == old(s.nodes[nodeID].peers) && now == clock() && inactiveDeadline == now - store.ExpireInterval
+//@ loop 1 invariant [seen]   forall k store.NodeID :: visited[k] ==> (has(node.peers, k) <==> store.wasTracked(s, nodeID, peers, k) && store.checkin(s, nodeID, peers, k) > inactiveDeadline)
+//@ loop 1 invariant [unseen] forall k store.NodeID :: !visited[k] ==> (has(node.peers, k) <==> store.wasTracked(s, nodeID, peers, k))
+//@ loop 1 invariant [ts]     forall k store.NodeID :: has(node.peers, k) ==> node.peers[k] == store.checkin(s, nodeID, peers, k)
+//@ loop 1 invariant [report-sound] forall p int :: off(inactive) <= p && p < off(inactive) + len(inactive) ==>
+//@        visited[elems(inactive)[p]] && store.wasTracked(s, nodeID, peers, elems(inactive)[p]) && !(store.checkin(s, nodeID, peers, elems(inactive)[p]) > inactiveDeadline)
+//@ loop 1 invariant [report-complete] forall k store.NodeID :: visited[k] && store.wasTracked(s, nodeID, peers, k) && !(store.checkin(s, nodeID, peers, k) > inactiveDeadline) ==> store.inList(inactive, k)
+//@ loop 1 invariant [distinct] forall p int, q int :: off(inactive) <= p && p < q && q < off(inactive) + len(inactive) ==> elems(inactive)[p] != elems(inactive)[q]
+//@ loop 1 invariant [others] forall n store.NodeID, k store.NodeID :: n != nodeID && has(s.nodes, n) ==> has(s.nodes[n].peers, k) == old(has(s.nodes[n].peers, k)) && s.nodes[n].peers[k] == old(s.nodes[n].peers[k])
+
+//@ func (*memoryStore).NodePeers
+//@ property C11 C10 C12
+//@ implements store.PoolStore.NodePeers
+//@ requires wf(s) && !held(s.mu)
+//@ ensures [wf] wf(s) && !held(s.mu)
+//@ loop 0 invariant [lock]     held(s.mu) && wf(s)
+//@ loop 0 invariant [members]  forall p int :: off(peers) <= p && p < off(peers) + len(peers) ==>
+//@        visited[elems(peers)[p].ID] && has(node.peers, elems(peers)[p].ID) && has(s.nodes, elems(peers)[p].ID) && elems(peers)[p] == s.nodes[elems(peers)[p].ID].Node
+//@ loop 0 invariant [complete] forall k store.NodeID :: visited[k] && has(s.nodes, k) ==> store.hasNode(peers, k)
+//@ loop 0 invariant [distinct] store.distinctIDs(peers)
+
+//@ func (*memoryStore).ActiveHosts
+//@ property C08 C10 C12
+//@ implements store.PoolStore.ActiveHosts
+//@ requires wf(s) && !held(s.mu)
+//@ ensures [wf] wf(s) && !held(s.mu)
+//@ ensures [never-fails] {C12} err == nil
+//@ loop 0 invariant [lock]     held(s.mu) && wf(s) && seenSince == clock() - store.ExpireInterval
+//@ loop 0 invariant [members]  forall p int :: off(r) <= p && p < off(r) + len(r) ==>
+//@        visited[elems(r)[p].ID] && has(s.nodes, elems(r)[p].ID) && elems(r)[p] == s.nodes[elems(r)[p].ID].Node && store.eligibleHost(elems(r)[p], kind, seenSince)
+//@ loop 0 invariant [complete] forall k store.NodeID :: visited[k] && has(s.nodes, k) && store.eligibleHost(s.nodes[k].Node, kind, seenSince) ==> store.hasNode(r, k)
+//@ loop 0 invariant [distinct] store.distinctIDs(r)
+//@ loop 0 invariant [budget]   len(r) + limit == old(limit) && (old(limit) > 0 ==> limit > 0)
+
+//@ func (*memoryStore).Stats
+//@ property C01 C10 C12
+//@ implements store.Store.Stats
+//@ requires wf(s) && !held(s.mu)
+//@ ensures [wf] wf(s) && !held(s.mu)
+//@ ensures [never-fails] {C12} err == nil
+//@ loop 0 invariant [lock]  held(s.mu) && wf(s) && bigval(stats.TotalCredit) == 0
+//@ loop 1 invariant [lock]  held(s.mu) && wf(s)
+//@ loop 1 invariant [sum]   bigval(stats.TotalCredit) == visitedsum(acreditsum)
+//@ loop 2 invariant [lock]  held(s.mu) && wf(s)
+//@ loop 2 invariant [sum]   bigval(stats.TotalCredit) == sum(acreditsum, s.balances) + visitedsum(tcreditsum)
